@@ -20,6 +20,7 @@
 //! time, fast loading off, each request issued while the tape is silent between blocks; the
 //! outcome (IX, DE, carry, RAM) must equal the `ld_bytes` model and what the same request gives on a
 //! twin machine that uses fast loading. This also validates the model used by C10.
+use crate::host::RegFile;
 use crate::json::{hex, J};
 use crate::report::{par_map, Ctx, Evidence};
 use crate::rng::Rng;
@@ -294,6 +295,85 @@ fn system_case(ctx: &Ctx, case_id: u64, rng: &mut Rng, st: &mut SysStats) {
     }
 }
 
+/// EAR at the port level: twin machines with the same tape execute the same instruction stream
+/// and sample bit 6 of an even port, one always through 0xBFFE (a single half-row selected, the
+/// way the ROM loader polls), the other through ports with other high bytes (all rows, no row,
+/// ...) and other even low bytes. Both must see the same level at every sample: the tape input does
+/// not depend on which even address or which half-rows the reading instruction uses.
+fn ear_port_case(ctx: &Ctx, case_id: u64, rng: &mut Rng, st: &mut (u64, u64, u64)) {
+    let is128 = rng.chance(1, 3);
+    let flag = *rng.pick(&[0xFFu8, 0xA5, 0x80]);
+    let n0 = 40 + rng.below(60) as usize;
+    let blocks = vec![mk_block(flag, &rng.bytes(n0), true), mk_block(0xFF, &rng.bytes(8), true)];
+    let img = tap_image(&blocks);
+    let mut fa = Rng::fork(ctx.seed ^ 0xC11_EA, case_id);
+    let mut fb = Rng::fork(ctx.seed ^ 0xC11_EA, case_id);
+    let mut a = tape_machine(is128, false, &mut fa);
+    let mut b = tape_machine(is128, false, &mut fb);
+    for m in [&mut a, &mut b] {
+        m.emu.load_tape(Tape::Tap(crate::host::mem_asset(img.clone()))).expect("load_tape");
+        m.poke_bytes(0x8100, &[0x18, 0xFE]);
+        let mut rf = RegFile::default();
+        rf.pc = 0x8100;
+        rf.sp = 0xBF00;
+        m.set_regs(&rf);
+    }
+    let his: [u8; 10] = [0xFF, 0xFF, 0x00, 0xFE, 0x80, 0xBF, 0x3F, 0xAA, rng.u8() | 0x80, rng.u8() & 0x3F];
+    let lows: [u8; 4] = [0xFE, 0xFE, 0xFA, 0xBE];
+    let mut seen = [false; 2];
+    let mut edges = 0u64;
+    let mut prev = None;
+    // phases: idle (never played), playing from a random position, stopped, playing again
+    for phase in 0..4 {
+        match phase {
+            1 | 3 => { a.emu.play_tape(); b.emu.play_tape(); }
+            2 => { a.emu.stop_tape(); b.emu.stop_tape(); }
+            _ => {}
+        }
+        if phase == 1 {
+            let skip = rng.below(130) as usize;
+            a.run_frames(skip);
+            b.run_frames(skip);
+        }
+        let samples = if phase == 1 || phase == 3 { 1500 } else { 60 };
+        for _ in 0..samples {
+            let gap = rng.below(60);
+            for _ in 0..gap {
+                a.step();
+                b.step();
+            }
+            let hi = *rng.pick(&his);
+            let lo = *rng.pick(&lows);
+            let pa = 0xBFFEu16;
+            let pb = ((hi as u16) << 8) | lo as u16;
+            let (va, vb) = (a.inp(pa), b.inp(pb));
+            if a.clock() != b.clock() {
+                ctx.inconclusive("C11 ear-port: twin machines lost clock alignment (harness problem)");
+                return;
+            }
+            st.0 += 1;
+            let la = va & 0x40 != 0;
+            seen[la as usize] = true;
+            if prev.is_some() && prev != Some(la) {
+                edges += 1;
+            }
+            prev = Some(la);
+            if (vb & 0x40 != 0) != la {
+                ctx.violation(
+                    "c11-ear-port-differs",
+                    &format!("bit 6 read through port {:04x} is {} while the twin machine reading {:04x} at the same instant sees {} (tape {}, phase {})", pb, vb >> 6 & 1, pa, va >> 6 & 1, if phase == 0 { "inserted, never played" } else if phase == 2 { "stopped" } else { "playing" }, phase),
+                    jobj! {"case"=>case_id,"stream"=>"C11 ear-port","is128"=>is128,"port"=>pb,"phase"=>phase,"blocks"=>blocks_json(&blocks)},
+                );
+                return;
+            }
+        }
+    }
+    st.1 += edges;
+    if seen[0] && seen[1] {
+        st.2 += 1;
+    }
+}
+
 pub fn run(ctx: &Ctx) -> Evidence {
     // ---------------- component part
     let n_tapes = ctx.scale(256, 8000) as usize;
@@ -330,11 +410,23 @@ pub fn run(ctx: &Ctx) -> Evidence {
         st
     });
 
+    // ---------------- EAR at the port level
+    let n_ear = ctx.scale(48, 600) as usize;
+    let ear = par_map(ctx.jobs(), n_ear, |i| {
+        let mut st = (0u64, 0u64, 0u64);
+        if !selected(&only, "C11 ear-port", i as u64) {
+            return st;
+        }
+        let mut rng = Rng::fork(ctx.seed ^ 0xC11_EA5, i as u64);
+        ear_port_case(ctx, i as u64, &mut rng, &mut st);
+        st
+    });
+
     let mut ev = Evidence::new(
         "component: generated TAP images played by the real Tap pulse generator under six step partitions (1..16 T per process_clocks call); \
          every pulse classified into [nominal, nominal+32] windows and every block parsed (pilot count, sync, two equal pulses per bit, MSB first, \
          bytes equal to the tape, pause 0.9..1.1 s, order, stop at the end). system: real ROM LD-BYTES loading in real time from the playing tape, \
-         compared with the ld_bytes model and with a fast-loading twin machine. distinct = (partition, block length, flag) triples decoded + \
+         compared with the ld_bytes model and with a fast-loading twin machine. ear-port: twin machines sampling bit 6 through 0xBFFE and through even ports with other high/low bytes at the same instants (idle, playing, stopped, playing again). distinct = (partition, block length, flag) triples decoded + \
          (block length, DE, LOAD/VERIFY, outcome) request shapes",
     );
     let mut wave = WaveStats::new();
@@ -383,6 +475,16 @@ pub fn run(ctx: &Ctx) -> Evidence {
     ev.add("system_requests_compared", reqs as u64);
     ev.add("system_successful_loads", okl as u64);
     ev.add("system_carry_set", cs as u64);
+    let (mut es, mut ee, mut eb) = (0u64, 0u64, 0u64);
+    for r in ear {
+        es += r.0;
+        ee += r.1;
+        eb += r.2;
+    }
+    ev.evaluations += es;
+    ev.add("ear_port_samples_compared", es);
+    ev.add("ear_port_level_changes_seen", ee);
+    ev.add("ear_port_cases_with_both_levels", eb);
     ev.assumptions.push("zero-length TAP blocks are outside the domain of C11 (no flag byte)".into());
     ev.assumptions.push("edge time = end of the process_clocks call after which current_bit() differs".into());
     if only.is_some() {
@@ -400,6 +502,7 @@ pub fn run(ctx: &Ctx) -> Evidence {
     for i in 0..6 {
         ctx.require(&format!("tapes under partition {:?}", STEP_MODES[i]), modes[i], 4);
     }
+    ctx.require("ear-port cases that saw both tape levels", eb, n_ear as u64 / 2);
     ctx.require("system-level requests compared", reqs as u64, (n_sys as u64 * 3) / 2 / 2);
     ctx.require("system-level successful real-time loads", okl as u64, n_sys as u64 / 8);
     ev
